@@ -20,6 +20,7 @@ import (
 	"crypto/md5"
 	"fmt"
 	"io"
+	"sort"
 	"math"
 	"math/big"
 	"os"
@@ -104,6 +105,76 @@ func valCase(env *zygo.Zlisp, v *V, jsonlike bool, withSource bool, tags ...stri
 	valCaseSexp(env, v, v.sexp(env), "val", "", jsonlike, withSource, tags...)
 }
 
+// cuts of the next case: set by replay, otherwise drawn from cutRng
+var cutRng *lib.Rng
+var forcedCuts []int
+var haveForcedCuts bool
+
+func cutsString(c []int) string {
+	if len(c) == 0 {
+		return "-"
+	}
+	p := make([]string, len(c))
+	for i, x := range c {
+		p[i] = strconv.Itoa(x)
+	}
+	return strings.Join(p, ",")
+}
+
+// piecesRoute: the printed text handed to the parser in pieces through the Go API
+// (ResetAddNewInput, NewInput ..., the last piece marked WholeText), cut at the given rune offsets
+func piecesRoute(env *zygo.Zlisp, printed string, cuts []int) string {
+	rs := []rune(printed)
+	var pieces []string
+	prev := 0
+	for _, c := range cuts {
+		if c < prev {
+			c = prev
+		}
+		if c > len(rs) {
+			c = len(rs)
+		}
+		pieces = append(pieces, string(rs[prev:c]))
+		prev = c
+	}
+	pieces = append(pieces, string(rs[prev:]))
+	return guard(func() string {
+		ps := env.VerifParser()
+		var ex []zygo.Sexp
+		var err error
+		for i, pc := range pieces {
+			var in interface {
+				ReadRune() (rune, int, error)
+				UnreadRune() error
+			} = strings.NewReader(pc)
+			if i == len(pieces)-1 {
+				in = zygo.WholeText(strings.NewReader(pc))
+			}
+			if i == 0 {
+				ps.ResetAddNewInput(in)
+			} else {
+				ps.NewInput(in)
+			}
+			ex, err = ps.ParseTokens()
+			if err != nil && err != zygo.ErrMoreInputNeeded {
+				break
+			}
+		}
+		st := "D"
+		if err == zygo.ErrMoreInputNeeded {
+			st = "M"
+		} else if err != nil {
+			st = "E"
+		}
+		var sb strings.Builder
+		sb.WriteString(st)
+		for _, x := range ex {
+			sb.WriteString(" | " + canonSexp(x, 0))
+		}
+		return sb.String()
+	})
+}
+
 // valCaseSexp: v describes sx (sx may be a live value computed by a script, e.g. with the backtick flag)
 func valCaseSexp(env *zygo.Zlisp, v *V, sx zygo.Sexp, prefix, extra string, jsonlike bool, withSource bool, tags ...string) {
 	if jsonlike && !v.isJSONLike() {
@@ -135,6 +206,23 @@ func valCaseSexp(env *zygo.Zlisp, v *V, sx zygo.Sexp, prefix, extra string, json
 		}
 		return sb.String()
 	})
+	// the printed text delivered in pieces cut anywhere (also inside atoms)
+	var cuts []int
+	if haveForcedCuts {
+		cuts = forcedCuts
+	} else if n := len([]rune(printed)); n >= 2 && cutRng != nil {
+		k := 1 + cutRng.Intn(3)
+		seen := map[int]bool{}
+		for i := 0; i < k; i++ {
+			c := 1 + cutRng.Intn(n-1)
+			if !seen[c] {
+				seen[c] = true
+				cuts = append(cuts, c)
+			}
+		}
+		sort.Ints(cuts)
+	}
+	pcs := piecesRoute(env, printed, cuts)
 	// the REPL front end: the printed text typed at the prompt, line by line
 	rp := guard(func() string {
 		savedOut := os.Stdout
@@ -208,8 +296,8 @@ func valCaseSexp(env *zygo.Zlisp, v *V, sx zygo.Sexp, prefix, extra string, json
 	} else if v.hasHash() {
 		j = "2" // a hash outside the JSON-like fragment: the property is silent, correspondence only
 	}
-	impl := "P=" + p + " ;; R=" + rd + " ;; RP=" + rp + " ;; E=" + ev + " ;; S=" + src + " ;; SV=" + saved + " ;; W=" + wfile
-	out.Case(prefix+" "+j+" "+extra+v.canon(true), impl, true, tags...)
+	impl := "P=" + p + " ;; R=" + rd + " ;; RP=" + rp + " ;; PC=" + pcs + " ;; E=" + ev + " ;; S=" + src + " ;; SV=" + saved + " ;; W=" + wfile
+	out.Case(prefix+" "+j+" "+cutsString(cuts)+" "+extra+v.canon(true), impl, true, tags...)
 }
 
 func valTags(v *V, prefix string) []string {
@@ -316,6 +404,13 @@ func valueStream(rng *lib.Rng, nData, nJSON int) {
 			items = append(items, &V{K: 'F', F: f, Sci: true}, &V{K: 'I', I: -int64(k)})
 			grid = append(grid, &V{K: 'A', Items: items})
 		}
+	}
+	// symbols whose spelling begins or ends with a reserved word (true false nil NaN Inf ...) are still symbols
+	for _, nm := range []string{"truex", "trueish", "true1", "xtrue", "xfalse", "isfalse", "falsey", "false_", "nilx", "xnil", "nil0", "NaNx", "xNaN", "nanx", "Infx", "xInf", "infx", "xinf",
+		"forx", "hashx", "quotex", "e5", "x1e5", "ULLx", "xULL", "x0x1", "b0b1"} {
+		y := &V{K: 'Y', S: nm}
+		grid = append(grid, y, &V{K: 'L', Items: []*V{y, {K: 'I', I: 1}}, Tail: &V{K: 'N'}}, &V{K: 'A', Items: []*V{{K: 'B', B: true}, y, {K: 'B'}}},
+			&V{K: 'H', Keys: []*V{y}, Items: []*V{y}})
 	}
 	// percent signs in saved data (the save path must not treat the text as a format string)
 	for _, txt := range []string{"50% done", "%d %s %v %%", "%", "100%!", "%!d(MISSING)", "a%20b"} {
@@ -710,6 +805,7 @@ func main() {
 	}
 	defer os.RemoveAll(tmpdir)
 	rng := lib.NewRng(args.Seed)
+	cutRng = lib.NewRng(args.Seed ^ 0x5eed)
 	nData, nJSON, nQS, litLen, nLit, nHist, nScr := 2000, 900, 1500, 4, 3000, 400, 500
 	if args.Tier == "thorough" {
 		nData, nJSON, nQS, litLen, nLit, nHist, nScr = 40000, 15000, 30000, 5, 60000, 8000, 10000
